@@ -23,7 +23,8 @@ LEVEL = "exploration"
 RULE = ("(a) exhaustive: every rule-tree shape with <= N branches (N=4 quick, 5 thorough; each branch may carry one "
         "refinement and one alternative, nested to any depth: base, chains of alternatives, refinements under base / "
         "refinement / alternative, alternatives under refinements) x every assignment of branch conditions from "
-        "{a>2, b>2, c>2, always-true} on the 8-object cube {1,3}^3, where every branch both fires and does not fire; "
+        "{a>2, b>2, c>2, always-true} on the 8-object cube {1,3}^3, where every branch both fires and does not fire, chains of >= 2 alternatives "
+        "in both declaration styles (nested `with` blocks / sibling `with` blocks); "
         "(b) random thresholds and 3-7 random objects. Non-trivial: at least two different conclusions are produced "
         "and at least one object gets none or an overridden one; distinct by (tree, data).")
 LEVEL_TEXT = ("Reference-model monitoring: the real rule tree (Add conclusions, refinement(), alternative() under "
@@ -56,7 +57,7 @@ class Out:
 
 CUBE = [[a, b, c] for a in (1, 3) for b in (1, 3) for c in (1, 3)]
 CONDS = [["a", 2], ["b", 2], ["c", 2], ["a", 0]]
-SIZES = {"quick": 4, "thorough": 5}
+SIZES = {"quick": 4, "thorough": 5}   # quick reaches base + 3 alternatives, the shortest chain where the two styles differ
 
 
 def shapes(n):
@@ -80,6 +81,16 @@ def label(shape, conds, counter=None):
     ref = label(shape[0], conds, counter)
     alt = label(shape[1], conds, counter)
     return [conds[i], f"t{i}", ref, alt]
+
+
+def _longest_alt_chain(node):
+    if node is None:
+        return 0
+    n, a = 0, node[3]
+    while a is not None:
+        n += 1
+        a = a[3]
+    return max(n, _longest_alt_chain(node[2]), _longest_alt_chain(node[3]))
 
 
 def count_nodes(node):
@@ -114,7 +125,8 @@ def plan(tier, seed):
 def floors(tier):
     return {"distinct_nontrivial": 300, "re:ExceptIf(@.*)?\\.enter": 500, "re:Alternative(@.*)?\\.enter": 500,
             "cls:shape:ref_in_ref": 20, "cls:shape:ref_in_alt": 20, "cls:shape:alt_in_ref": 20, "cls:shape:alt_chain": 20,
-            "cls:overridden": 200, "cls:alt_fired": 200, "cls:caching_off": 50}
+            "cls:overridden": 200, "cls:alt_fired": 200, "cls:caching_off": 50,
+            "cls:style:sibling_alternatives": 200, "re:cls:longest_alternative_chain=[3-9]": 50}
 
 
 def gen_case(rng):
@@ -122,7 +134,7 @@ def gen_case(rng):
     sh = rng.choice(shapes(n))
     conds = [[rng.choice("abc"), rng.randint(0, 3)] for _ in range(n)]
     data = [[rng.randint(1, 4) for _ in range(3)] for _ in range(rng.randint(3, 7))]
-    return {"tree": label(sh, conds), "data": data, "caching": rng.random() < 0.7}
+    return {"tree": label(sh, conds), "data": data, "caching": rng.random() < 0.7, "sibling": rng.random() < 0.5}
 
 
 def cases(spec, ctx):
@@ -130,6 +142,8 @@ def cases(spec, ctx):
         for i, tree in enumerate(all_trees(spec["size"])):
             if i % spec["stride"] == spec["offset"]:
                 yield {"tree": tree, "data": "cube", "caching": (i // spec["stride"]) % 5 != 0}
+                if _longest_alt_chain(tree) >= 2:
+                    yield {"tree": tree, "data": "cube", "caching": True, "sibling": True}
         return
     for i in range(spec["n"]):
         yield gen_case(ctx.rng(spec["sub"], i))
@@ -158,17 +172,28 @@ def expected(case, objs):
 
 
 # ------------------------------------------------------------------------------------------------ real code
-def _build_branch(node, x, out):
+def _build_branch(node, x, out, sibling=False, with_alt=True):
+    """sibling=False: every alternative is declared inside the `with` block of the branch before it (nested style);
+    sibling=True : the alternatives of a chain are declared one after the other at the same level (the style of the
+    repository's own tests).  Both spell the same ripple-down tree."""
     from entity_query_language import Add
     from entity_query_language.rule import refinement, alternative
     cond, tag, ref, alt = node
     Add(out, Out(tag=tag, src=x))
     if ref is not None:
         with refinement(getattr(x, ref[0][0]) > ref[0][1]):
-            _build_branch(ref, x, out)
-    if alt is not None:
+            _build_branch(ref, x, out, sibling)
+    if not with_alt:
+        return
+    if not sibling:
+        if alt is not None:
+            with alternative(getattr(x, alt[0][0]) > alt[0][1]):
+                _build_branch(alt, x, out, sibling)
+        return
+    while alt is not None:
         with alternative(getattr(x, alt[0][0]) > alt[0][1]):
-            _build_branch(alt, x, out)
+            _build_branch(alt, x, out, sibling, with_alt=False)
+        alt = alt[3]
 
 
 def build(case, objs):
@@ -180,7 +205,7 @@ def build(case, objs):
         out = let(Out)
         q = infer(entity(out, getattr(x, tree[0][0]) > tree[0][1]))
     with rule_mode(q):
-        _build_branch(tree, x, out)
+        _build_branch(tree, x, out, sibling=bool(case.get("sibling")))
     return q
 
 
@@ -232,6 +257,8 @@ def check_case(case, ctx):
     for t in _shape_tags(case["tree"]):
         ctx.cls("cls:shape:" + t)
     ctx.cls(f"cls:branches={count_nodes(case['tree'])}")
+    ctx.cls("cls:style:sibling_alternatives" if case.get("sibling") else "cls:style:nested_alternatives")
+    ctx.cls(f"cls:longest_alternative_chain={_longest_alt_chain(case['tree'])}")
     ctx.cls("cls:caching_on" if case["caching"] else "cls:caching_off")
     tags = {t for t, _ in exp}
     overridden = any(holds(case["tree"][0], o) and fire(case["tree"], o) != case["tree"][1] for o in objs)
